@@ -69,7 +69,7 @@ def rand_int(rng, nbytes, signed):
     if r < 0.3:
         return hi
     if r < 0.4:
-        return rng.choice([0, 1, hi - 1, lo + 1, 0x7F & hi, 0x80 & hi, 0xDE, 0xAD & hi])
+        return min(hi, max(lo, rng.choice([0, 1, hi - 1, lo + 1, 0x7F, 0x80, 0xDE, 0xAD, -1, -128])))
     return rng.randrange(lo, hi + 1)
 
 
@@ -102,9 +102,12 @@ def gen_py(rng, ty, small=False):
             kw[f.name] = gen_py(rng, f.type, True)
         return ty(**kw)
     if k == "simpledesc":
-        ni, no = rng.randrange(0, 6), rng.randrange(0, 6)
-        if rng.random() < 0.05:
-            ni = 255
+        # cycle through the boundary shapes deterministically so that every run covers them
+        shapes = [(0, 0), (3, 0), (0, 2), (1, 1), (rng.randrange(0, 6), rng.randrange(0, 6)), (255, 0), (0, 255), (2, 5)]
+        gen_py.sd_counter = getattr(gen_py, "sd_counter", -1) + 1
+        ni, no = shapes[gen_py.sd_counter % len(shapes)]
+        if small and ni + no > 20:
+            ni, no = 4, 0
         return SimpleDescriptor(endpoint=rng.randrange(256), profile=rng.randrange(65536), device_type=rng.randrange(65536),
                                 device_version=rng.randrange(256), input_clusters_count=ni, output_clusters_count=no,
                                 input_clusters=[rng.randrange(65536) for _ in range(ni)],
@@ -199,15 +202,18 @@ def _parse(text):
     return val()
 
 
-def from_model(ty, text):
-    """Python value of wire type ty from model text (inverse of to_model for valid values)."""
+def from_model(ty, text, signed=None):
+    """Python value of wire type ty from model text (inverse of to_model for valid values).
+    signed: optional flat list of the PINNED signedness of the integer leaves (consumed left to right): the image is
+    then interpreted as the pinned revision did, so that a changed signedness shows up as a refused / different value."""
     from zigpy_zboss.types.structs import SimpleDescriptor
     tree = _parse(text) if isinstance(text, str) else text
     c = classify(ty)
     k = c[0]
     if k == "int":
         n = tree[1]
-        if c[2] and n >= 1 << (8 * c[1] - 1):
+        sg = signed.pop(0) if signed else c[2]
+        if sg and n >= 1 << (8 * c[1] - 1):
             n -= 1 << (8 * c[1])
         return ty(n)
     if k == "fixbytes":
@@ -215,9 +221,10 @@ def from_model(ty, text):
     if k == "lvbytes":
         return ty(tree[1])
     if k in ("lvlist", "fixlist", "greedy"):
-        return ty([from_model(ty._item_type, x) for x in tree[1]])
+        item_signed = list(signed) if signed else None
+        return ty([from_model(ty._item_type, x, list(item_signed) if item_signed else None) for x in tree[1]])
     if k == "struct":
-        return ty(**{f.name: from_model(f.type, x) for f, x in zip(ty.fields, tree[1])})
+        return ty(**{f.name: from_model(f.type, x, signed) for f, x in zip(ty.fields, tree[1])})
     if k == "simpledesc":
         ep, prof, dt, dv, ins, outs = tree[1]
         return SimpleDescriptor(endpoint=ep[1], profile=prof[1], device_type=dt[1], device_version=dv[1],
